@@ -168,3 +168,194 @@ Proof.
   rewrite Ec1, K1, S2a, Z.eqb_refl in E4. inversion E4; subst.
   rewrite Ec2, K2. reflexivity.
 Qed.
+
+(* ------------------------------------------------------------------ the filter, exactly
+   When does the client hand the same message (type, mid) to the handler twice?  Only if, in
+   between, a response of the same type with another mid was handled (the slot was overwritten)
+   or - for piggybacked responses - a new request took that mid (wrap).  For every client state
+   and every input sequence.  This is the formal content of the signature of finding C07-F1. *)
+Definition ex_delivers_kind (kind : Z) (o : ex_obs) : bool :=
+  existsb (fun x => match x with ExResp k _ _ _ => k =? kind | _ => false end) (snd o).
+
+Definition ex_sends_mid (mid : Z) (o : ex_obs) : bool :=
+  existsb (fun x => match x with ExTx (ExReq m _ _) => m =? mid | _ => false end) (snd o).
+
+Lemma ex_step_keeps_lcon : forall maxr c i,
+  ex_delivers_kind 0 (i, snd (ex_cli_step maxr c i)) = false ->
+  ex_c_lcon (fst (ex_cli_step maxr c i)) = ex_c_lcon c.
+Proof.
+  intros maxr c i H. unfold ex_delivers_kind in H. cbn [snd] in H. unfold ex_cli_step in *.
+  destruct i as [sty | | d ok].
+  - destruct (ex_c_q c); cbn; auto.
+  - destruct (ex_c_q c) as [q |]; [destruct (ex_q_cnt q <? maxr) |]; cbn; auto.
+  - destruct d as [m k s | m | m k | m k | m k | m].
+    + reflexivity.
+    + unfold ex_remove_mid. destruct (ex_c_q c) as [q |]; [destruct (ex_q_mid q =? m) |]; cbn; auto.
+    + unfold ex_remove_mid in *.
+      destruct (ex_c_q c) as [q |]; [destruct (ex_q_mid q =? m) |]; cbn [fst snd ex_set_q ex_c_lack] in *;
+        (destruct (m =? ex_c_lack c); cbn; auto; unfold ex_deliver;
+         destruct (negb ok && negb (2 =? 2)); cbn; auto).
+    + assert (E : ex_c_lcon (ex_cancel_tok c k) = ex_c_lcon c).
+      { unfold ex_cancel_tok. destruct (ex_c_q c) as [q |]; [destruct (ex_q_tok q =? k) |]; cbn; auto. }
+      destruct (m =? ex_c_lcon (ex_cancel_tok c k)); cbn [fst snd] in *; [exact E |].
+      unfold ex_deliver in H. destruct (negb ok && negb (0 =? 2)); cbn in H; discriminate H.
+    + assert (E : ex_c_lcon (ex_cancel_tok c k) = ex_c_lcon c).
+      { unfold ex_cancel_tok. destruct (ex_c_q c) as [q |]; [destruct (ex_q_tok q =? k) |]; cbn; auto. }
+      unfold ex_deliver. destruct (negb ok && negb (1 =? 2)); cbn; exact E.
+    + unfold ex_remove_mid. destruct (ex_c_q c) as [q |]; [destruct (ex_q_mid q =? m) |]; cbn; auto.
+Qed.
+
+Lemma ex_step_keeps_lack : forall maxr c i s,
+  ex_c_lack c = s ->
+  ex_delivers_kind 2 (i, snd (ex_cli_step maxr c i)) = false ->
+  ex_sends_mid s (i, snd (ex_cli_step maxr c i)) = false ->
+  ex_c_lack (fst (ex_cli_step maxr c i)) = s.
+Proof.
+  intros maxr c i s Es H Hs. unfold ex_delivers_kind, ex_sends_mid in *. cbn [snd] in *.
+  unfold ex_cli_step in *.
+  destruct i as [sty | | d ok].
+  - destruct (ex_c_q c); cbn [fst snd] in *; [exact Es |].
+    cbv zeta in *. unfold ex_req_of in Hs. cbn [fst snd ex_q_mid ex_c_lack existsb] in *.
+    rewrite orb_false_r in Hs. rewrite Es. rewrite Hs. reflexivity.
+  - destruct (ex_c_q c) as [q |]; [destruct (ex_q_cnt q <? maxr) |]; cbn; auto.
+  - destruct d as [m k st | m | m k | m k | m k | m].
+    + exact Es.
+    + unfold ex_remove_mid. destruct (ex_c_q c) as [q |]; [destruct (ex_q_mid q =? m) |]; cbn; auto.
+    + unfold ex_remove_mid in *.
+      destruct (ex_c_q c) as [q |]; [destruct (ex_q_mid q =? m) |]; cbn [fst snd ex_set_q ex_c_lack] in *;
+        (destruct (m =? ex_c_lack c); cbn [fst snd] in *; [exact Es |];
+         unfold ex_deliver in H; destruct (negb ok && negb (2 =? 2)); cbn in H; discriminate H).
+    + assert (E : ex_c_lack (ex_cancel_tok c k) = ex_c_lack c).
+      { unfold ex_cancel_tok. destruct (ex_c_q c) as [q |]; [destruct (ex_q_tok q =? k) |]; cbn; auto. }
+      destruct (m =? ex_c_lcon (ex_cancel_tok c k)); cbn [fst snd]; [congruence |].
+      unfold ex_deliver. destruct (negb ok && negb (0 =? 2)); cbn; congruence.
+    + assert (E : ex_c_lack (ex_cancel_tok c k) = ex_c_lack c).
+      { unfold ex_cancel_tok. destruct (ex_c_q c) as [q |]; [destruct (ex_q_tok q =? k) |]; cbn; auto. }
+      unfold ex_deliver. destruct (negb ok && negb (1 =? 2)); cbn; congruence.
+    + unfold ex_remove_mid. destruct (ex_c_q c) as [q |]; [destruct (ex_q_mid q =? m) |]; cbn; auto.
+Qed.
+
+Lemma ex_run_keeps_lcon : forall maxr ins c,
+  (forall o, In o (snd (ex_cli_run maxr c ins)) -> ex_delivers_kind 0 o = false) ->
+  ex_c_lcon (fst (ex_cli_run maxr c ins)) = ex_c_lcon c.
+Proof.
+  intros maxr ins. induction ins as [| i ins IH]; intros c H; cbn in *; [reflexivity |].
+  pose proof (ex_step_keeps_lcon maxr c i) as K.
+  destruct (ex_cli_step maxr c i) as [c1 o] eqn:E.
+  destruct (ex_cli_run maxr c1 ins) as [c2 t] eqn:E2. cbn [fst snd] in *.
+  rewrite <- K by (apply (H (i, o)); left; reflexivity).
+  specialize (IH c1). rewrite E2 in IH. cbn [fst snd] in IH. apply IH.
+  intros o0 Ho. apply H. right. exact Ho.
+Qed.
+
+Lemma ex_run_keeps_lack : forall maxr ins c s,
+  ex_c_lack c = s ->
+  (forall o, In o (snd (ex_cli_run maxr c ins)) -> ex_delivers_kind 2 o = false /\ ex_sends_mid s o = false) ->
+  ex_c_lack (fst (ex_cli_run maxr c ins)) = s.
+Proof.
+  intros maxr ins. induction ins as [| i ins IH]; intros c s Es H; cbn in *; [exact Es |].
+  pose proof (ex_step_keeps_lack maxr c i s Es) as K.
+  destruct (ex_cli_step maxr c i) as [c1 o] eqn:E.
+  destruct (ex_cli_run maxr c1 ins) as [c2 t] eqn:E2. cbn [fst snd] in *.
+  destruct (H (i, o) (or_introl eq_refl)) as [H1 H2].
+  specialize (K H1 H2).
+  specialize (IH c1 s K). rewrite E2 in IH. cbn [fst snd] in IH. apply IH.
+  intros o0 Ho. apply H. right. exact Ho.
+Qed.
+
+(* splitting a trace of a run into the three runs that produced it *)
+Lemma ex_run_split3 : forall maxr c ins t1 o1 t2 o2 t3,
+  snd (ex_cli_run maxr c ins) = t1 ++ o1 :: t2 ++ o2 :: t3 ->
+  exists c1 c2 c3,
+    c1 = fst (ex_cli_run maxr c (map fst t1)) /\
+    ex_cli_step maxr c1 (fst o1) = (c2, snd o1) /\
+    snd (ex_cli_run maxr c2 (map fst t2)) = t2 /\
+    c3 = fst (ex_cli_run maxr c2 (map fst t2)) /\
+    snd (ex_cli_step maxr c3 (fst o2)) = snd o2.
+Proof.
+  intros maxr c ins t1 o1 t2 o2 t3 Et.
+  pose proof (ex_cli_run_trace_inputs maxr ins c) as Hin. rewrite Et in Hin.
+  rewrite map_app in Hin. cbn [map] in Hin. rewrite map_app in Hin. cbn [map] in Hin.
+  subst ins. rewrite ex_cli_run_app in Et. cbn [snd] in Et.
+  assert (L1 : length (snd (ex_cli_run maxr c (map fst t1))) = length t1).
+  { transitivity (length (map fst t1)); [| apply map_length].
+    rewrite <- (ex_cli_run_trace_inputs maxr (map fst t1) c) at 2. symmetry. apply map_length. }
+  apply ex_app_inv_length in Et; [| exact L1]. destruct Et as [_ Et].
+  cbn [ex_cli_run] in Et.
+  match type of Et with
+  | context [ex_cli_step maxr ?cc (fst o1)] =>
+      remember cc as c1 eqn:Ec1; destruct (ex_cli_step maxr c1 (fst o1)) as [c2 x1] eqn:E1
+  end.
+  rewrite ex_cli_run_app in Et.
+  match type of Et with
+  | context [ex_cli_run maxr c2 ?ii] =>
+      remember ii as i2 eqn:Ei2; destruct (ex_cli_run maxr c2 i2) as [c3 tr2] eqn:E3
+  end.
+  cbn [fst snd] in Et. cbn [ex_cli_run] in Et.
+  destruct (ex_cli_step maxr c3 (fst o2)) as [c4 x2] eqn:E4.
+  match type of Et with
+  | context [ex_cli_run maxr c4 ?ii] => destruct (ex_cli_run maxr c4 ii) as [c5 tr3] eqn:E5
+  end.
+  cbn [fst snd] in Et.
+  injection Et as Eo1 Erest.
+  assert (X : map fst tr2 = i2).
+  { pose proof (ex_cli_run_trace_inputs maxr i2 c2) as X. rewrite E3 in X. exact X. }
+  assert (L2 : length tr2 = length t2).
+  { transitivity (length i2); [rewrite <- X; symmetry; apply map_length | rewrite Ei2; apply map_length]. }
+  apply ex_app_inv_length in Erest; [| exact L2]. destruct Erest as [Et2 Erest].
+  injection Erest as Eo2 _.
+  assert (Ei2' : i2 = map fst t2) by (rewrite Ei2; reflexivity).
+  exists c1, c2, c3. split; [rewrite Ec1; reflexivity |]. split.
+  { destruct o1 as [a b]. cbn in *. inversion Eo1; subst. exact E1. }
+  split; [rewrite <- Ei2', E3; exact Et2 |]. split; [rewrite <- Ei2', E3; reflexivity |].
+  destruct o2 as [a b]. cbn in *. inversion Eo2; subst. rewrite E4. reflexivity.
+Qed.
+
+(* a Confirmable response is delivered a second time only after a Confirmable response with
+   another mid was delivered in between *)
+Theorem ex_client_con_filter : forall maxr c ins t1 s k ok st a t2 k' ok' outs' t3,
+  snd (ex_cli_run maxr c ins) =
+    t1 ++ (ExRx (ExConR s k) ok, [ExResp 0 s k st; ExTx a]) :: t2 ++
+    (ExRx (ExConR s k') ok', outs') :: t3 ->
+  (forall o, In o t2 -> ex_delivers_kind 0 o = false) ->
+  ex_delivers_kind 0 (ExRx (ExConR s k') ok', outs') = false.
+Proof.
+  intros maxr c ins t1 s k ok st a t2 k' ok' outs' t3 Et D.
+  destruct (ex_run_split3 _ _ _ _ _ _ _ _ Et) as [c1 [c2 [c3 [E1 [E2 [E3 [E4 E5]]]]]]].
+  cbn [fst snd] in *.
+  assert (S2 : ex_c_lcon c2 = s).
+  { unfold ex_cli_step in E2.
+    destruct (s =? ex_c_lcon (ex_cancel_tok c1 k)) eqn:Ef.
+    - injection E2 as _ Ex. destruct (ex_c_lres (ex_cancel_tok c1 k)); discriminate Ex.
+    - unfold ex_deliver in E2. destruct (negb ok && negb (0 =? 2)); injection E2 as E2 _; subst c2; reflexivity. }
+  assert (K : ex_c_lcon c3 = s).
+  { rewrite E4, <- S2. apply ex_run_keeps_lcon. rewrite E3. exact D. }
+  rewrite <- E5. unfold ex_cli_step.
+  assert (Ec : ex_c_lcon (ex_cancel_tok c3 k') = ex_c_lcon c3).
+  { unfold ex_cancel_tok. destruct (ex_c_q c3) as [q |]; [destruct (ex_q_tok q =? k') |]; cbn; auto. }
+  rewrite Ec, K, Z.eqb_refl. cbn [snd]. unfold ex_delivers_kind. cbn.
+  destruct (ex_c_lres (ex_cancel_tok c3 k')); reflexivity.
+Qed.
+
+(* a piggybacked response is delivered a second time only after a piggybacked response with
+   another mid was delivered, or a new request took that mid, in between *)
+Theorem ex_client_ack_filter : forall maxr c ins t1 s k ok st t2 k' ok' outs' t3,
+  snd (ex_cli_run maxr c ins) =
+    t1 ++ (ExRx (ExAckR s k) ok, [ExResp 2 s k st]) :: t2 ++ (ExRx (ExAckR s k') ok', outs') :: t3 ->
+  (forall o, In o t2 -> ex_delivers_kind 2 o = false /\ ex_sends_mid s o = false) ->
+  outs' = [].
+Proof.
+  intros maxr c ins t1 s k ok st t2 k' ok' outs' t3 Et D.
+  destruct (ex_run_split3 _ _ _ _ _ _ _ _ Et) as [c1 [c2 [c3 [E1 [E2 [E3 [E4 E5]]]]]]].
+  cbn [fst snd] in *.
+  assert (S2 : ex_c_lack c2 = s).
+  { unfold ex_cli_step in E2. destruct (ex_remove_mid c1 s) as [c0 sent].
+    destruct (s =? ex_c_lack c0); [injection E2 as _ Ex; discriminate Ex |].
+    unfold ex_deliver in E2. destruct (negb ok && negb (2 =? 2)); injection E2 as E2 _; subst c2; reflexivity. }
+  assert (K : ex_c_lack c3 = s).
+  { rewrite E4. apply ex_run_keeps_lack; [exact S2 |]. rewrite E3. exact D. }
+  rewrite <- E5. unfold ex_cli_step.
+  assert (Ec : ex_c_lack (fst (ex_remove_mid c3 s)) = ex_c_lack c3).
+  { unfold ex_remove_mid. destruct (ex_c_q c3) as [q |]; [destruct (ex_q_mid q =? s) |]; cbn; auto. }
+  destruct (ex_remove_mid c3 s) as [c0 sent]. cbn [fst] in Ec. rewrite Ec, K, Z.eqb_refl. reflexivity.
+Qed.
